@@ -252,3 +252,32 @@ Print Assumptions C13_run_mode_raw.
 Print Assumptions C13_into_yielded_order.
 Print Assumptions C13_into_complete_result.
 Print Assumptions C13_liveness_bound_size.
+
+(* ---- the state-machine clauses: every trace of the state-machine model is accepted by step13 (Model/Monitors13.v) ----
+   step13 rejects: a progress event that is not the next value the installer reported, or any other action (control
+   traffic aside) while a reported value is still undelivered - so all of them are delivered, in order, before the
+   install's outcome is announced; a request while neither a check nor the wait for the reboot has announced itself; the
+   installer asked for a plan outside a check or started before InstallingUpdate has been taken; the reboot performed
+   before WaitingForReboot has been taken.  (An event is in a trace when the consumer takes it; a call when it is made.) *)
+Require Import Verif.Model.Time Verif.Base.Bytes Verif.Model.Proto Verif.Model.Env Verif.Model.SM Verif.Model.Monitors13
+               Verif.Proofs.Monitor Verif.Proofs.C13smProof.
+Theorem C13_state_machine_delivers_progress_and_never_runs_ahead :
+  forall ep cfg url cup apps e, e_trace e = [] ->
+    accepts step13 init13 (run_case ep cfg url cup apps e) = true.
+Proof. exact model_accepted_c13sm. Qed.
+Section Examples13sm.
+  Let perf (ps : list N) := AInstaller (IPerform (s2b "p")) (IPerformed {| pa_progress := ps; pa_results := [] |}).
+  Let pre := [AEvent (EvState (CheckingForUpdates ScheduledTask)); AEvent (EvState InstallingUpdate)].
+  Example C13_sm_monitor :
+    (* a reported value dropped; values out of order; the outcome announced before the last value *)
+    accepts step13 init13 (pre ++ [perf [1; 2; 3]; AEvent (EvProgress 1); AEvent (EvProgress 3)])%N = false
+    /\ accepts step13 init13 (pre ++ [perf [1; 2]; AEvent (EvProgress 2); AEvent (EvProgress 1)])%N = false
+    /\ accepts step13 init13 (pre ++ [perf [1; 2]; AEvent (EvProgress 1); AClock {| wall := 0; mono := 0 |}])%N = false
+    (* the installer started before InstallingUpdate was taken; a reboot before WaitingForReboot was taken *)
+    /\ accepts step13 init13 [AEvent (EvState (CheckingForUpdates ScheduledTask)); perf []] = false
+    /\ accepts step13 init13 [AInstaller IReboot (IRebooted true)] = false
+    (* the legitimate sequence *)
+    /\ accepts step13 init13 (pre ++ [perf [1; 2]; AEvent (EvProgress 1); AEvent (EvProgress 2); AClock {| wall := 0; mono := 0 |}])%N = true.
+  Proof. vm_compute. repeat split. Qed.
+End Examples13sm.
+Print Assumptions C13_state_machine_delivers_progress_and_never_runs_ahead.
